@@ -5,6 +5,7 @@ package h2c
 import (
 	"crypto"
 
+	"github.com/oasisprotocol/curve25519-voi/curve"
 	"github.com/oasisprotocol/curve25519-voi/internal/verif"
 )
 
@@ -180,4 +181,61 @@ func vh_C14_h2f() {
 	verif.AnyBytes("b", b)
 	fe := uniformToField25519(b)
 	verif.Assert(verif.ModEq(fieldVal(fe), verif.IntBE(b), fieldP()), "element = OS2IP(b) mod p")
+}
+
+func xofRef(name string, k int, dst, msg []byte, n int) []byte {
+	d := dst
+	if len(d) > 255 {
+		var in []byte
+		in = append(in, refOversize...)
+		in = append(in, d...)
+		d = verif.XofOf(name, 2*k/8, in)
+	}
+	var in []byte
+	in = append(in, msg...)
+	in = append(in, byte(n>>8), byte(n))
+	in = append(in, d...)
+	in = append(in, byte(len(d)))
+	return verif.XofOf(name, n, in)
+}
+
+// The six suites (RFC 9380 section 8.5 and appendix B): which expander, how many uniform bytes (L = 48 per field
+// element: 96 for hash_to_curve, 48 for encode_to_curve, 64 for ristretto255), how they are cut into field
+// elements, and map / add / clear_cofactor applied in the RFC's order. The maps themselves are uninterpreted
+// (Elligator 2 and the ristretto255 one-way map are NOT verified here; see DESIGN.md).
+//
+//verif:ob prop=C14 name=suites_vs_RFC9380 mode=bv tags=purego use=gapi nouse=ga_NU split=s:0..5;nd:1+255..256;nm:0..1
+func vh_C14_suites() {
+	s, nd, nm := verif.Case("s"), verif.Case("nd"), verif.Case("nm")
+	dst := make([]byte, nd)
+	verif.AnyBytes("dst", dst)
+	msg := make([]byte, nm)
+	verif.AnyBytes("msg", msg)
+	ro := func(p *curve.EdwardsPoint, u []byte) bool {
+		q0 := GEll2(uniformToField25519(u[:48]))
+		q1 := GEll2(uniformToField25519(u[48:96]))
+		// (addition is commutative: either operand order is the RFC's sum)
+		return curve.Pid(p).Eq(curve.GCofactor(curve.GAdd(q0, q1))) || curve.Pid(p).Eq(curve.GCofactor(curve.GAdd(q1, q0)))
+	}
+	nu := func(u []byte) verif.BV { return curve.GCofactor(GEll2(uniformToField25519(u[:48]))) }
+	switch s {
+	case 0:
+		p, err := Edwards25519_XMD_SHA512_ELL2_RO(dst, msg)
+		verif.Assert(err == nil && ro(p, xmdRef("sha512", 64, 128, dst, msg, 96)), "edwards25519_XMD:SHA-512_ELL2_RO_ = clear_cofactor(map(u0) + map(u1)), u = hash_to_field(msg, 2)")
+	case 1:
+		p, err := Edwards25519_XMD_SHA512_ELL2_NU(dst, msg)
+		verif.Assert(err == nil && curve.Pid(p).Eq(nu(xmdRef("sha512", 64, 128, dst, msg, 48))), "edwards25519_XMD:SHA-512_ELL2_NU_ = clear_cofactor(map(u)), u = hash_to_field(msg, 1)")
+	case 2:
+		p, err := Edwards25519_XOF_ELL2_RO(verif.NewShakeStub("shake128"), dst, msg)
+		verif.Assert(err == nil && ro(p, xofRef("shake128", 128, dst, msg, 96)), "edwards25519_XOF:SHAKE128_ELL2_RO_")
+	case 3:
+		p, err := Edwards25519_XOF_ELL2_NU(verif.NewShakeStub("shake128"), dst, msg)
+		verif.Assert(err == nil && curve.Pid(p).Eq(nu(xofRef("shake128", 128, dst, msg, 48))), "edwards25519_XOF:SHAKE128_ELL2_NU_")
+	case 4:
+		p, err := Ristretto255_XMD_R255MAP_RO(crypto.SHA512, dst, msg)
+		verif.Assert(err == nil && curve.Rid(p).Eq(curve.RFromUniform(xmdRef("sha512", 64, 128, dst, msg, 64))), "ristretto255_XMD:SHA-512_R255MAP_RO_ = one_way_map(expand_message_xmd(msg, DST, 64))")
+	case 5:
+		p, err := Ristretto255_XOF_R255MAP_RO(verif.NewShakeStub("shake128"), dst, msg)
+		verif.Assert(err == nil && curve.Rid(p).Eq(curve.RFromUniform(xofRef("shake128", 128, dst, msg, 64))), "ristretto255_XOF:SHAKE128_R255MAP_RO_ = one_way_map(expand_message_xof(msg, DST, 64))")
+	}
 }
